@@ -20,14 +20,31 @@ Inductive schema :=
 | SList (s : schema)          (* []T *)
 | SStruct (fs : list schema)  (* struct with cbor.StructAsArray: fixed-length array *)
 | SPoint                      (* pcommon.Point: [] or [slot, hash], custom codec *)
-| SOpaque.                    (* custom codec / map / any: not modelled here *)
+| SListI (s : schema)         (* []T written by a hand MarshalCBOR as an indefinite-length list, read by reflection *)
+| STagBytes                   (* []byte written as tag 24 (wrapped CBOR) + byte string, read by reflection as []byte *)
+| SBytesN (n : N)             (* [n]byte *)
+| STagAny                     (* cbor.Tag: any tag number, any content *)
+| SAny                        (* any / interface{}: every item, content not observed *)
+| SMapU (indef : bool) (bits : N) (s : schema) (* map[uintN]T; indef: written as an indefinite-length map by a hand encoder *)
+| SPeer                       (* peersharing.PeerAddress, custom codec *)
+| SOpaque.                    (* custom codec not modelled here *)
 
 Inductive value :=
 | VUInt (n : N) | VBool (b : bool) | VBytes (bs : bytes) | VText (bs : bytes) | VRaw (i : item)
 | VList (vs : list value) | VStruct (vs : list value)
-| VOrigin | VPoint (slot : N) (hash : bytes).
+| VOrigin | VPoint (slot : N) (hash : bytes)
+| VAny | VTagged (t : N) (v : value) | VMap (kvs : list (N * value))
+| VPeer4 (addr port : N) | VPeer6 (a1 a2 a3 a4 port : N).
 
 Definition len {A} (l : list A) : N := N.of_nat (length l).
+
+(* map keys as the encoder emits them (SortCoreDeterministic = ascending for
+   unsigned keys), in range, without duplicates *)
+Fixpoint sorted_keys {A} (w : N) (kvs : list (N * A)) : bool :=
+  match kvs with
+  | [] => true
+  | (k, _) :: r => (k <? 2 ^ w) && match r with (k', _) :: _ => k <? k' | [] => true end && sorted_keys w r
+  end.
 
 (* ---- cbor.Encode: shortest heads, definite lengths ---- *)
 Fixpoint enc_s (s : schema) (v : value) {struct s} : option item :=
@@ -52,6 +69,32 @@ Fixpoint enc_s (s : schema) (v : value) {struct s} : option item :=
             | f :: fr, v :: vr => match enc_s f v, go fr vr with Some x, Some xs => Some (x :: xs) | _, _ => None end
             | _, _ => None
             end) fs vs)
+  | SListI e, VList vs =>
+      option_map (fun xs => Arr None xs)
+        ((fix go (vs : list value) : option (list item) :=
+            match vs with
+            | [] => Some []
+            | v :: r => match enc_s e v, go r with Some x, Some xs => Some (x :: xs) | _, _ => None end
+            end) vs)
+  | STagBytes, VBytes bs => Some (Tag F1 24 (BStr (min_form (len bs)) bs))
+  | SBytesN n, VBytes bs => if len bs =? n then Some (BStr (min_form (len bs)) bs) else None
+  | STagAny, VTagged t (VBytes bs) => if 4 <=? t then Some (Tag (min_form t) t (BStr (min_form (len bs)) bs)) else None
+  | SMapU ind w e, VMap kvs =>
+      if sorted_keys w kvs then
+        option_map (fun xs => Map (if ind then None else Some (min_form (len xs))) xs)
+          ((fix go (kvs : list (N * value)) : option (list (item * item)) :=
+              match kvs with
+              | [] => Some []
+              | (k, v) :: r => match enc_s e v, go r with Some x, Some xs => Some ((UInt (min_form k) k, x) :: xs) | _, _ => None end
+              end) kvs)
+      else None
+  | SPeer, VPeer4 a p =>
+      if (a <? 2 ^ 32) && (p <? 2 ^ 16) then Some (Arr (Some Fimm) [UInt Fimm 0; UInt (min_form a) a; UInt (min_form p) p]) else None
+  | SPeer, VPeer6 a1 a2 a3 a4 p =>
+      if (a1 <? 2 ^ 32) && (a2 <? 2 ^ 32) && (a3 <? 2 ^ 32) && (a4 <? 2 ^ 32) && (p <? 2 ^ 16) then
+        Some (Arr (Some Fimm) [UInt Fimm 1; UInt (min_form a1) a1; UInt (min_form a2) a2; UInt (min_form a3) a3;
+                               UInt (min_form a4) a4; UInt (min_form p) p])
+      else None
   | SPoint, VOrigin => Some (Arr (Some Fimm) [])
   | SPoint, VPoint sl h =>
       if sl <? 2 ^ 64 then Some (Arr (Some Fimm) [UInt (min_form sl) sl; BStr (min_form (len h)) h]) else None
@@ -72,6 +115,8 @@ Fixpoint zero (s : schema) : value :=
   | SUInt _ => VUInt 0 | SBool => VBool false | SBytes => VBytes [] | SText => VText []
   | SRaw => VRaw (Simple Fimm 22) | SList _ => VList [] | SStruct fs => VStruct (map zero fs)
   | SPoint => VOrigin | SOpaque => VOrigin
+  | SListI _ => VList [] | STagBytes => VBytes [] | SBytesN n => VBytes (repeat 0 (N.to_nat n))
+  | STagAny => VTagged 0 VAny | SAny => VAny | SMapU _ _ _ => VMap [] | SPeer => VOrigin
   end.
 
 Fixpoint be_val (bs : bytes) (acc : N) : N :=
@@ -100,15 +145,55 @@ Definition dec_uint (w : N) (j : item) : option value :=
 Definition dec_bytes (j : item) : option bytes :=
   match j with BStr _ bs => Some bs | BStrI cs => Some (flat_map snd cs) | _ => None end.
 
+(* an unsigned destination of w bits inside a reflection-decoded struct, as a
+   number (null/undefined leave 0) *)
+Definition dec_u (w : N) (x : item) : option N :=
+  let j := strip x in
+  if is_nil j then Some 0 else match dec_uint w j with Some (VUInt n) => Some n | _ => None end.
 (* a []byte destination also takes a CBOR array, element by element, as a
    slice of uint8 (with the coercions of an unsigned destination) *)
-Definition dec_u8 (x : item) : option N :=
-  let j := strip x in
-  if is_nil j then Some 0 else match dec_uint 8 j with Some (VUInt n) => Some n | _ => None end.
+Definition dec_u8 := dec_u 8.
 Fixpoint dec_u8s (xs : list item) : option bytes :=
   match xs with
   | [] => Some []
   | x :: r => match dec_u8 x, dec_u8s r with Some n, Some ns => Some (n :: ns) | _, _ => None end
+  end.
+
+(* a Go array [n]byte: the source is copied as far as it fits, the rest stays
+   zero - neither a short nor a long byte string is an error *)
+Definition fixn (n : N) (bs : bytes) : bytes := firstn (N.to_nat n) (bs ++ repeat 0 (N.to_nat n)).
+
+(* the built-in tag content rule (fxamacker validBuiltinTag) *)
+Definition builtin_ok (t : N) (x : item) : bool :=
+  if t =? 0 then match x with TStr _ _ | TStrI _ => true | _ => false end
+  else if t =? 1 then match x with UInt _ _ | NInt _ _ | Float _ _ => true | _ => false end
+  else if (t =? 2) || (t =? 3) then match x with BStr _ _ | BStrI _ => true | _ => false end
+  else true.
+
+(* peersharing.PeerAddress.UnmarshalCBOR: cbor.DecodeIdFromList (a plain
+   unsigned first element), then a typed toarray struct chosen by the id and,
+   for IPv6, by the list length (6, or 8 with flow info and scope id that are
+   dropped).  Called also for null (which it rejects). *)
+Definition dec_peer (i : item) : option value :=
+  match i with
+  | Arr _ (UInt _ id :: rest) =>
+      if id =? 0 then
+        match rest with
+        | [a; p] => match dec_u 32 a, dec_u 16 p with Some a', Some p' => Some (VPeer4 a' p') | _, _ => None end
+        | _ => None
+        end
+      else if id =? 1 then
+        match rest with
+        | [a1; a2; a3; a4; p] =>
+            match dec_u 32 a1, dec_u 32 a2, dec_u 32 a3, dec_u 32 a4, dec_u 16 p with
+            | Some b1, Some b2, Some b3, Some b4, Some p' => Some (VPeer6 b1 b2 b3 b4 p') | _, _, _, _, _ => None end
+        | [a1; a2; a3; a4; fl; sc; p] =>
+            match dec_u 32 a1, dec_u 32 a2, dec_u 32 a3, dec_u 32 a4, dec_u 32 fl, dec_u 32 sc, dec_u 16 p with
+            | Some b1, Some b2, Some b3, Some b4, Some _, Some _, Some p' => Some (VPeer6 b1 b2 b3 b4 p') | _, _, _, _, _, _, _ => None end
+        | _ => None
+        end
+      else None
+  | _ => None
   end.
 
 (* pcommon.Point.UnmarshalCBOR after the fix: decode into []any; length 0 is
@@ -131,6 +216,16 @@ Definition dec_point_pinned (j : item) : option value :=
   | _ => None
   end.
 
+(* a map key: the library reuses one key variable for all entries, so a
+   null/undefined key leaves the PREVIOUS entry's key (0 for the first entry)
+   - and is then caught as a duplicate unless it is the first *)
+Definition dec_key (w prev : N) (k : item) : option N :=
+  let j := strip k in
+  if is_nil j then Some prev else match dec_uint w j with Some (VUInt n) => Some n | _ => None end.
+
+Fixpoint nodup_keys (ks : list N) : bool :=
+  match ks with [] => true | k :: r => negb (existsb (N.eqb k) r) && nodup_keys r end.
+
 Section Dec.
   Variable point : item -> option value.
 
@@ -150,6 +245,52 @@ Section Dec.
     | SText => if is_nil j then Some (zero s) else
                match j with TStr _ bs => Some (VText bs) | TStrI cs => Some (VText (flat_map snd cs)) | _ => None end
     | SPoint => if is_nil j then Some (zero s) else point j
+    | SPeer => dec_peer i
+    | SAny => Some VAny
+    | STagAny =>
+        if is_nil i then Some (zero s) else
+        match i with
+        | Tag _ t x => if builtin_ok t x then Some (VTagged t (match dec_bytes x with Some bs => VBytes bs | None => VAny end)) else None
+        | _ => None
+        end
+    | STagBytes => if is_nil j then Some (zero s) else
+               match j with
+               | Arr _ xs => option_map VBytes (dec_u8s xs)
+               | _ => option_map VBytes (dec_bytes j)
+               end
+    | SBytesN n => if is_nil j then Some (zero s) else
+               match j with
+               | Arr _ xs => option_map (fun bs => VBytes (fixn n bs)) (dec_u8s xs)
+               | _ => option_map (fun bs => VBytes (fixn n bs)) (dec_bytes j)
+               end
+    | SListI e => if is_nil j then Some (zero s) else
+        match j with
+        | Arr _ xs =>
+            option_map VList
+              ((fix go (xs : list item) : option (list value) :=
+                  match xs with
+                  | [] => Some []
+                  | x :: r => match dec_g e x, go r with Some v, Some vs => Some (v :: vs) | _, _ => None end
+                  end) xs)
+        | _ => None
+        end
+    | SMapU _ w e => if is_nil j then Some (zero s) else
+        match j with
+        | Map _ kvs =>
+            match (fix go (prev : N) (kvs : list (item * item)) : option (list (N * value)) :=
+                     match kvs with
+                     | [] => Some []
+                     | (k, x) :: r =>
+                         match dec_key w prev k with
+                         | Some k' => match dec_g e x, go k' r with Some v, Some vs => Some ((k', v) :: vs) | _, _ => None end
+                         | None => None
+                         end
+                     end) 0 kvs with
+            | Some l => if nodup_keys (map fst l) then Some (VMap l) else None   (* DupMapKeyEnforcedAPF *)
+            | None => None
+            end
+        | _ => None
+        end
     | SList e => if is_nil j then Some (zero s) else
         match j with
         | Arr _ xs =>
@@ -180,6 +321,8 @@ Definition dec_s := dec_g dec_point.
 Definition dec_pinned := dec_g dec_point_pinned.
 
 (* ---- correspondence ---- *)
+(* first argument: the observation (maps rendered in key order by the
+   harness); second: the model's value (maps in wire order) *)
 Fixpoint value_eqb (a b : value) {struct a} : bool :=
   match a, b with
   | VUInt n, VUInt m => n =? m
@@ -191,6 +334,19 @@ Fixpoint value_eqb (a b : value) {struct a} : bool :=
          match l1, l2 with [], [] => true | x :: r1, y :: r2 => value_eqb x y && go r1 r2 | _, _ => false end) xs ys
   | VOrigin, VOrigin => true
   | VPoint s h, VPoint s' h' => (s =? s') && bytes_eqb h h'
+  | VAny, VAny => true
+  | VTagged t x, VTagged u y => (t =? u) && value_eqb x y
+  | VMap xs, VMap ys =>
+      (length xs =? length ys)%nat &&
+      (fix all (l : list (N * value)) : bool :=
+         match l with
+         | [] => true
+         | (k, x) :: r =>
+             (fix find (m : list (N * value)) : bool :=
+                match m with [] => false | (k', y) :: m' => ((k =? k') && value_eqb x y) || find m' end) ys && all r
+         end) xs
+  | VPeer4 a p, VPeer4 a' p' => (a =? a') && (p =? p')
+  | VPeer6 a b c d p, VPeer6 a' b' c' d' p' => (a =? a') && (b =? b') && (c =? c') && (d =? d') && (p =? p')
   | _, _ => false
   end.
 
@@ -200,8 +356,15 @@ Fixpoint value_eqb (a b : value) {struct a} : bool :=
 Record case := C { c_schema : schema; c_item : item; c_obs : option value }.
 Definition check_case (c : case) : bool :=
   match dec_s (c_schema c) (c_item c), c_obs c with
-  | Some v, Some w => value_eqb v w
+  | Some v, Some w => value_eqb w v
   | None, None => true
   | _, _ => false
   end.
-Definition mismatches := failing check_case.
+(* encoder case: cbor.Encode of a constructed message (hand-written
+   MarshalCBOR methods included) is the model's encoding *)
+Record ecase := E { e_schema : schema; e_value : value; e_item : item }.
+Definition check_ecase (c : ecase) : bool :=
+  match enc_s (e_schema c) (e_value c) with Some i => item_eqb i (e_item c) | None => false end.
+Inductive tcase := TD (c : case) | TE (c : ecase).
+Definition check_tcase (c : tcase) : bool := match c with TD d => check_case d | TE e => check_ecase e end.
+Definition mismatches := failing check_tcase.
